@@ -6,6 +6,7 @@ require (
 	github.com/absolute8511/redcon v0.9.3
 	github.com/coreos/etcd v3.1.15+incompatible
 	github.com/siddontang/goredis v0.0.0-20180423163523-0b4019cbd7b7
+	github.com/twmb/murmur3 v1.1.5
 	github.com/youzan/ZanRedisDB v0.0.0
 	github.com/youzan/go-zanredisdb v0.6.3
 	golang.org/x/net v0.0.0-20191209160850-c0dbc17a3553
